@@ -123,7 +123,8 @@ def run(ctx):
             p = subprocess.run([cli, "fmt"] + args + [path], stdout=subprocess.PIPE, stderr=subprocess.PIPE, timeout=120)
             after = (open(path, "rb").read(), os.stat(path).st_mtime_ns)
             return p.returncode, before != after
-        for a, args in (("check", ["--check"]), ("diff", ["--diff"]), ("fmt", []), ("check", ["--check"]), ("diff", ["--diff"]), ("fmt", [])):
+        for a, args in (("check", ["--check"]), ("diff", ["--diff"]), ("checkdiff", ["--check", "--diff"] if k % 2 else ["--diff", "--check"]),
+                        ("fmt", []), ("check", ["--check"]), ("diff", ["--diff"]), ("checkdiff", ["--check", "--diff"]), ("fmt", [])):
             rc, mod = invoke(args)
             n_cli += 1
             events.append({"a": a, "name": name, "exit": rc, "modified": mod})
